@@ -647,6 +647,7 @@ def samplingW? (s : String) : Option (Option (Nat × Rat)) :=
 /-- ops:
   `c17.export px pxUm lt sampling img T C M K`    rows of the file (or the error)
   `c17.roundtrip …same…`                           the re-imported group
+  `c17.roundtrip2 …same…`                          the group after saving and importing the re-imported group again
   `c17.roundtripu4 …`, `c17.roundtripu8 …`         the same with the pinned (unrepaired) F4 / F8 code
   `c17.read px pxUm lt [idx|t|c|count|mindur,…]`   import of a hand-written file
   `c17.prog px pxUm lt T C M K op…`                errors per op and the final group
@@ -667,6 +668,10 @@ def handleFile (op px pxUm lt smp img t c m k : String) : Option String := do
     some (showExcept (showList showRow) (exportRows ky sample fmt6e g))
   else if op == "c17.roundtrip" then
     some (showExcept showGroup (roundtrip ky sample fmt6e g))
+  else if op == "c17.roundtrip2" then
+    some (showExcept showGroup (match roundtrip ky sample fmt6e g with
+      | .ok g' => roundtrip ky sample fmt6e g'
+      | .error e => .error e))
   else
     match exportRows ky sample fmt6e g with
     | .error e => some e.name
@@ -677,6 +682,7 @@ def handleFile (op px pxUm lt smp img t c m k : String) : Option String := do
 def handle : List String → Option String
   | ["c17.export", px, pxUm, lt, smp, img, t, c, m, k] => handleFile "c17.export" px pxUm lt smp img t c m k
   | ["c17.roundtrip", px, pxUm, lt, smp, img, t, c, m, k] => handleFile "c17.roundtrip" px pxUm lt smp img t c m k
+  | ["c17.roundtrip2", px, pxUm, lt, smp, img, t, c, m, k] => handleFile "c17.roundtrip2" px pxUm lt smp img t c m k
   | ["c17.roundtripu4", px, pxUm, lt, smp, img, t, c, m, k] => handleFile "c17.roundtripu4" px pxUm lt smp img t c m k
   | ["c17.roundtripu8", px, pxUm, lt, smp, img, t, c, m, k] => handleFile "c17.roundtripu8" px pxUm lt smp img t c m k
   | ["c17.read", px, pxUm, lt, rows] => do
